@@ -6,8 +6,8 @@ CONSTANTS
   AliasTargets = {1,3}
   MaxNum = 3
   MaxOps = 100
-  Known = {"C20-1"}
 VIEW View
 INVARIANT Inv
 PROPERTY StepProp
+PROPERTY NoAbort
 CHECK_DEADLOCK FALSE
